@@ -4,8 +4,8 @@ Engine E1.  Pre-state: n symbolic-identity keys assigned in order into a cache o
 symbolic capacity 1..3 (forces evictions / anchor rotation / re-assignment moves),
 optionally one removal; then ONE pinned operation with symbolic key arguments.
 Oracle: reference cache = recency list + capacity + three counters + on_miss call
-log.  Recency order is observed through the public API (insert max_size fresh keys
-and watch the old ones disappear) and, as a strengthening, on the ring itself.
+log.  Recency order is observed through the public API only (insert max_size fresh keys
+and watch the old ones disappear, then look every survivor up).
 """
 from boltons.cacheutils import LRI, LRU
 from vf.rt import K, cz, pin, pinval, assume, fail, done, notrace, labels
@@ -150,17 +150,6 @@ def state_ok(c, M, calls_log):
         return 'on_miss_calls'
     if c.max_size != M.ms:
         return 'max_size_changed'
-    if hasattr(c, '_anchor') and hasattr(c, '_link_lookup'):
-        rk = ring_keys(c)
-        if rk is None:
-            return 'ring_broken'
-        if len(rk) != len(M.items) or len(c._link_lookup) != len(M.items):
-            return 'ring_len'
-        for (a, av), (b, bv) in zip(rk, M.items):
-            if not (a == b) or not (av == bv):
-                return 'ring_order'
-            if c._link_lookup[b][2] != b:
-                return 'link_lookup'
     return None
 
 
@@ -180,6 +169,13 @@ def eviction_probe(c, M):
                 return 'value_lost_in_probe'
     if len(c) != M.ms:
         return 'probe_final_len'
+    # finally read every surviving key through the cache's own lookup
+    for k, v in list(M.items):
+        try:
+            if not (c[k] == v):
+                return 'probe_lookup_value'
+        except KeyError:
+            return 'probe_lookup_keyerror'
     return None
 
 
